@@ -119,3 +119,53 @@ impl Zeroconf {
 pub fn vx_any_cached_names<'a>() -> (r: Vec<(&'a str, RRType)>)
     ensures forall|i: int| 0 <= i < r@.len() ==> max_label((#[trigger] r@[i]).0@) < 64,
 { unimplemented!() }
+
+// ---- dispatcher and API side (unit schedule) ----
+#[verifier::external_body]
+#[verifier::reject_recursive_types(T)]
+pub struct Receiver<T> { x: core::marker::PhantomData<T> }
+// flume::bounded
+#[verifier::external_body]
+pub fn bounded<T>(cap: usize) -> (r: (Sender<T>, Receiver<T>)) { unimplemented!() }
+impl ServiceDaemon {
+    // the channel to the daemon thread; contract of the channel as stub precondition: every command handed to the
+    // daemon is one its handlers accept (search delays within 1 s ..= 1 h)   (C19)
+    #[verifier::external_body]
+    pub fn send_cmd(&self, cmd: Command) -> (r: Result<()>)
+        requires cmd_ok(cmd), // @props C19
+    { unimplemented!() }
+}
+// proved in unit validate
+#[verifier::external_body]
+pub fn check_domain_suffix(name: &str) -> (r: Result<()>) { unimplemented!() }
+#[verifier::external_body]
+pub fn check_hostname(hostname: &str) -> (r: Result<()>) { unimplemented!() }
+// `for x in set` (HashSet::into_iter): the elements in some order
+#[verifier::external_body]
+pub fn vx_set_into_vec<K>(s: HashSet<K>) -> (r: Vec<K>) { unimplemented!() }
+impl Zeroconf {
+    // handlers that are not under contract here: assumed to keep the re-run queue acceptable and every queued
+    // re-run covered by a timer (register_service queues RegisterResend re-runs with add_retransmission)
+    #[verifier::external_body]
+    pub fn register_service(&mut self, info: ServiceInfo)
+        ensures queue_ok(*old(self)) ==> queue_ok(*final(self)), timers_cover(*old(self)) ==> timers_cover(*final(self)),
+    { unimplemented!() }
+    #[verifier::external_body]
+    pub fn exec_command_get_metrics(&mut self, resp_s: Sender<HashMap<String, i64>>)
+        ensures *final(self) == (Zeroconf { counters: final(self).counters, ..*old(self) }),
+    { unimplemented!() }
+    #[verifier::external_body]
+    pub fn process_set_option(&mut self, daemon_opt: DaemonOption)
+        ensures final(self).retransmissions == old(self).retransmissions, final(self).timers == old(self).timers,
+    { unimplemented!() }
+    #[verifier::external_body]
+    pub fn del_interface_addr(&mut self, intf: &Interface)
+        ensures queue_ok(*old(self)) ==> queue_ok(*final(self)), timers_cover(*old(self)) ==> timers_cover(*final(self)),
+    { unimplemented!() }
+    #[verifier::external_body]
+    pub fn check_ip_changes(&mut self)
+        ensures queue_ok(*old(self)) ==> queue_ok(*final(self)), timers_cover(*old(self)) ==> timers_cover(*final(self)),
+    { unimplemented!() }
+    #[verifier::external_body]
+    pub fn send_cmd_to_self(&self, cmd: Command) -> (r: Result<()>) { unimplemented!() }
+}
